@@ -3,9 +3,9 @@
 //! `src::Src`, so the same function is the Kani proof obligation and the native replay program.
 #[macro_use]
 pub mod src;
+pub mod c02;
 pub mod c04;
 pub mod c07;
-pub mod c09;
 pub mod c15;
 pub mod u1;
 pub mod gen_float_table;
@@ -23,9 +23,9 @@ pub type NativeHarness = fn(&mut Q);
 /// name -> native instantiation of every harness (used by /verif/replay)
 pub fn registry() -> Vec<(&'static str, NativeHarness)> {
     let mut v: Vec<(&'static str, NativeHarness)> = vec![];
+    v.extend(c02::registry());
     v.extend(c04::registry());
     v.extend(c07::registry());
-    v.extend(c09::registry());
     v.extend(c15::registry());
     v.extend(u1::registry());
     v.extend(u4::registry());
